@@ -24,7 +24,7 @@ RULE = (
 ASSUMPTIONS = [
     "levelize only on circuits whose sources are inputs/constants (it defines level 0 only for those)",
     "kcuts bounded to <= 9 nodes with fan-in <= 3 (enumeration cost), validity only (no completeness claim)",
-    "transitive queries compared on acyclic graphs (for nodes on a cycle 'proper ancestor' is ambiguous)",
+    "on cyclic graphs a node is not counted as its own proper ancestor/descendant (per-node definition, united over the argument list)",
 ]
 EXHAUSTIVE_NOTE = "core: all 1024+64+8+2+1 DAGs on 5,4,3,2,1 labelled nodes in topological order, every query on every node and on all node pairs"
 EXAMPLES = {"quick": 1500, "thorough": 30000}
@@ -59,6 +59,12 @@ def core(ctx):
         for mask in range(1 << len(pairs)):
             edges = [pairs[b] for b in range(len(pairs)) if (mask >> b) & 1]
             yield {"spec": _spec_from_graph(n, edges, [mask % 7, 1, 2, 3, 5], [False]), "args": "all", "k": 1 + mask % 4}
+    # rings that no startpoint reaches (free-running / constant-driven loops)
+    for ring in (["not", "not", "not"], ["not", "buf"], ["buf", "buf", "buf", "not"]):
+        nodes = [[f"r{i}", t, [f"r{(i - 1) % len(ring)}"], i == 0] for i, t in enumerate(ring)]
+        yield {"spec": {"name": "c", "nodes": nodes, "bbtypes": [], "insts": []}, "args": "all", "k": 2}
+        nodes2 = [["k", "1", [], False], ["a", "input", [], True]] + [[f"r{i}", "and" if i == 0 else t, [f"r{(i - 1) % len(ring)}"] + (["k"] if i == 0 else []), i == 1] for i, t in enumerate(ring)]
+        yield {"spec": {"name": "c", "nodes": nodes2, "bbtypes": [], "insts": []}, "args": "all", "k": 2}
     # cyclic rejections
     for ring in (2, 3):
         nodes = [["a", "input", [], False]] + [[f"r{i}", "and", [f"r{(i - 1) % ring}", "a"], i == 0] for i in range(ring)]
@@ -193,6 +199,19 @@ def check(case, ctx):
             got = need(lib(c.fanout, arg), "fanout", f"fanout({desc})")
             if got != exp_fo:
                 raise Violation("fanout|value", f"fanout({desc}) = {sorted(got)}, successors {sorted(exp_fo)}")
+            if cyc:
+                # per-node proper ancestors / descendants (a node is not its own ancestor), united over the list
+                anc = set()
+                des = set()
+                for n in ns:
+                    anc |= refsim.ancestors(c, [n]) - {n}
+                    des |= refsim.descendants(c, [n]) - {n}
+                got = need(lib(c.transitive_fanin, arg), "tfi", f"transitive_fanin({desc})")
+                if got != anc:
+                    raise Violation("transitive_fanin|value_cyclic", f"transitive_fanin({desc}) = {sorted(got)}, proper ancestors {sorted(anc)}")
+                got = need(lib(c.transitive_fanout, arg), "tfo", f"transitive_fanout({desc})")
+                if got != des:
+                    raise Violation("transitive_fanout|value_cyclic", f"transitive_fanout({desc}) = {sorted(got)}, proper descendants {sorted(des)}")
             if not cyc:
                 anc = set()
                 des = set()
